@@ -252,6 +252,12 @@ StringDictionaryHASHHF::StringDictionaryHASHHF(IteratorDictString *it, uint len,
   hash->finish(bytesStrings);
 
   delete builder;
+
+  // The object must be usable without a save/load cycle, as after load():
+  // the coder needs the decoding table and the hash the compressed sequence
+  delete coder;
+  coder = new StatCoder(table, codewords);
+  hash->setData(textStrings);
 }
 
 unsigned long StringDictionaryHASHHF::locate(uchar *str, uint strLen) {
